@@ -297,6 +297,52 @@ def every_type_message(rng):
     return (rand_header(rng), qs, tuple(rrs[:a]), tuple(rrs[a:b]), tuple(rrs[b:]))
 
 
+# pairs of DIFFERENT names that a careless key would identify: the same dotted text (a '.' octet inside a
+# label; an escape-looking label), the same concatenated octets, the same labels in another order, octets
+# that a lossy text rendering merges (>= 0x80, NUL, trailing space), case-folded neighbours, a name and its
+# wildcard / parent / one-octet-shorter sibling.  An encoder that memoises names under such a key emits a
+# pointer to a name that is NOT the one being written (C04: "every pointer addresses an identical name").
+CONFUSABLE = [
+    ((b"a.b", b"c", b""), (b"a", b"b", b"c", b"")),
+    ((b"a", b"b.c", b""), (b"a", b"b", b"c", b"")),
+    ((b"a.b.c", b""), (b"a", b"b", b"c", b"")),
+    ((b"a\\", b"b", b""), (b"a\\.b", b"")),
+    ((b"a\\.b", b""), (b"a.b", b"")),
+    ((b"\\046", b""), (b".", b"")),
+    ((b"\\.", b""), (b".", b"")),
+    ((b"ab", b"c", b""), (b"a", b"bc", b"")),
+    ((b"a", b"b", b""), (b"b", b"a", b"")),
+    ((b"\xff", b"x", b""), (b"\xfe", b"x", b"")),
+    ((b"\xc3\xa9", b""), (b"\xe9", b"")),
+    ((b"\xef\xbf\xbd", b""), (b"\x80", b"")),
+    ((b"a\x00", b""), (b"a", b"")),
+    ((b"a ", b""), (b"a", b"")),
+    ((b"1", b""), (b"\x01", b"")),
+    ((b"[", b""), (b"{", b"")),
+    ((b"@", b""), (b"`", b"")),
+    ((b"*", b"a", b""), (b"a", b"")),
+    ((b"x" * 63, b"y", b""), (b"x" * 62, b"y", b"")),
+    ((b"www", b"example", b"com", b""), (b"www.example", b"com", b"")),
+]
+
+
+def confusable_messages(rng):
+    """for each confusable pair, in both orders: the first name is written (and memoised) first, the second
+    then appears as owner and inside RDATA, where a pointer to the first would be wrong"""
+    out = []
+    for n1, n2 in CONFUSABLE:
+        for x, y in ((n1, n2), (n2, n1)):
+            h = (0x1234, 1, 0, 0, 0, 1, 1, 0)
+            out.append((h, ((x, tok.A, 1),),
+                        ((x, tok.A, 1, 60, ("a", 1)), (y, tok.A, 1, 60, ("a", 2))),
+                        ((x, tok.CNAME, 1, 60, ("n", y)), (y, tok.NS, 1, 60, ("n", x))),
+                        ((y, tok.MX, 1, 60, ("x", 10, x)), (x, tok.MX, 1, 60, ("x", 20, y)))))
+            pool = [x, y, rng.choice(COMMON_NAMES)]
+            out.append((rand_header(rng), (rand_question(rng, pool),),
+                        tuple(rand_rr(rng, pool) for _ in range(3)), tuple(rand_rr(rng, pool) for _ in range(2)), ()))
+    return out
+
+
 SMALL_BODY_Q = ((name("www.example."), tok.A, 1),)
 SMALL_BODY_AN = ((name("www.example."), tok.A, 1, 300, ("a", 0x01020304)),)
 
